@@ -246,6 +246,13 @@ class SessionModel(object):
             s.counter += 1
             s.base = s.counter
             res.append((poid, s))
+            if protocol == 'stale':
+                # the earlier connection's close may already have been reported (estab_protocol cleared by
+                # connection_closed) while the FSM still points at the old protocol object
+                s2 = s.fork()
+                s2.heap[w.peering].fields['estab_protocol'] = Const(None)
+                s2.flags = set(s2.flags) | {'regime:estab-cleared'}
+                res.append((poid, s2))
         return res
 
     MODELLED = {'state', 'protocol', 'bgp_peering', 'fsm', 'estab_protocol', 'handler', 'factory',
